@@ -998,4 +998,54 @@ theorem advanceIterG_sim (pj : PJ) (i dst : Iter) (hl : i.lim ≤ pj.tape.size) 
   rw [runFun_final _ _ _ _ key.final]
   exact key
 
+/-! ## against the hand model -/
+
+theorem advance_sim (pj : PJ) (i : Iter) (hl : i.lim ≤ pj.tape.size) (fuel : Nat) (hf : fuelFor i ≤ fuel)
+    (hd : DeadCurAgrees advanceLoopG pj i) :
+    SimT pj.tape (runFun goFuns goIter_Advance fuel { env := envOf "i" i, tape := pj.tape }) (i.advance pj) := by
+  rw [advance_eq_G pj i hd]
+  exact advanceG_sim pj i hl fuel hf
+
+theorem advanceInto_sim (pj : PJ) (i : Iter) (hl : i.lim ≤ pj.tape.size) (fuel : Nat) (hf : fuelFor i ≤ fuel)
+    (hd : DeadCurAgrees advanceIntoLoopG pj i) :
+    SimT pj.tape (runFun goFuns goIter_AdvanceInto fuel { env := envOf "i" i, tape := pj.tape })
+      (i.advanceInto pj) := by
+  rw [advanceInto_eq_G pj i hd]
+  exact advanceIntoG_sim pj i hl fuel hf
+
+theorem advanceIter_sim (pj : PJ) (i dst : Iter) (hl : i.lim ≤ pj.tape.size) (fuel : Nat) (hf : fuelFor i ≤ fuel)
+    (he : EndAtStart pj i) :
+    SimIter pj.tape (runFun goFuns goIter_AdvanceIter fuel
+      { env := envOf "i" i ++ envOf "dst" dst ++ [("i!=dst", .bool true)], tape := pj.tape })
+      (i.advanceIter pj dst) := by
+  rw [advanceIter_eq_G pj i dst he]
+  exact advanceIterG_sim pj i dst hl fuel hf
+
+/-- The cursor functions of `parsed_json.go`, as translated, against the model.
+    1. `PeekNextTag`, `PeekNext` are the hand model, unconditionally.
+    2. `Advance`, `AdvanceInto`, `AdvanceIter` are `advanceG`, `advanceIntoG`, `advanceIterG` unconditionally.
+    3. The hand model's `advance`, `advanceInto` agree with these up to the payload register of an iterator at its end
+       (`RelDead`), and exactly under `DeadCurAgrees`; `advanceIter` exactly under `EndAtStart`. -/
+theorem go_iter_source_tie (pj : PJ) (i dst : Iter) (hl : i.lim ≤ pj.tape.size) (fuel : Nat) (hf : fuelFor i ≤ fuel) :
+    SimV pj.tape i (runFun goFuns goIter_PeekNextTag fuel { env := envOf "i" i, tape := pj.tape }) (i.peekNextTag pj) ∧
+    SimV pj.tape i (runFun goFuns goIter_PeekNext fuel { env := envOf "i" i, tape := pj.tape }) (i.peekNext pj) ∧
+    SimT pj.tape (runFun goFuns goIter_Advance fuel { env := envOf "i" i, tape := pj.tape }) (advanceG pj i) ∧
+    SimT pj.tape (runFun goFuns goIter_AdvanceInto fuel { env := envOf "i" i, tape := pj.tape }) (advanceIntoG pj i) ∧
+    SimIter pj.tape (runFun goFuns goIter_AdvanceIter fuel
+      { env := envOf "i" i ++ envOf "dst" dst ++ [("i!=dst", .bool true)], tape := pj.tape }) (advanceIterG pj i dst) ∧
+    RelDead i (advanceG pj i) (i.advance pj) ∧
+    RelDead i (advanceIntoG pj i) (i.advanceInto pj) ∧
+    (DeadCurAgrees advanceLoopG pj i →
+      SimT pj.tape (runFun goFuns goIter_Advance fuel { env := envOf "i" i, tape := pj.tape }) (i.advance pj)) ∧
+    (DeadCurAgrees advanceIntoLoopG pj i →
+      SimT pj.tape (runFun goFuns goIter_AdvanceInto fuel { env := envOf "i" i, tape := pj.tape })
+        (i.advanceInto pj)) ∧
+    (EndAtStart pj i →
+      SimIter pj.tape (runFun goFuns goIter_AdvanceIter fuel
+        { env := envOf "i" i ++ envOf "dst" dst ++ [("i!=dst", .bool true)], tape := pj.tape })
+        (i.advanceIter pj dst)) :=
+  ⟨peekNextTag_sim pj i hl fuel hf, peekNext_sim pj i hl fuel hf, advanceG_sim pj i hl fuel hf,
+   advanceIntoG_sim pj i hl fuel hf, advanceIterG_sim pj i dst hl fuel hf, advance_rel_G pj i, advanceInto_rel_G pj i,
+   advance_sim pj i hl fuel hf, advanceInto_sim pj i hl fuel hf, advanceIter_sim pj i dst hl fuel hf⟩
+
 end SJ.GoIter
